@@ -183,7 +183,7 @@ func gofmtSource(decls []string) ([]byte, error) {
 	return format.Source([]byte(src))
 }
 
-var c18GoFileNames = []string{"a.go", "alloc.go", "b_ops.go", "Caps.go", "m1.go", "m10.go", "m2.go", "test_helpers.go", "mytest.go", "gold.go", "z_last.go", "loops.go", "wal.go", "0first.go"}
+var c18GoFileNames = []string{"a.go", "alloc.go", "b_ops.go", "Caps.go", "m1.go", "m10.go", "m2.go", "test_helpers.go", "mytest.go", "gold.go", "z_last.go", "loops.go", "wal.go", "0first.go", "wal.v2.go", "types.pb.go", "x.gold.go", "a-b.go", "go.go", "test.go", "b.test.go", "_under.go.go", ".hidden.go"}
 
 func (g *c18gen) attrib(names ...string) {
 	for _, n := range names {
@@ -228,8 +228,31 @@ func genC18Dir(seed int64, idx int, hostile string) (*c18Dir, error) {
 		}
 		gofiles = append(gofiles, gf)
 	}
-	if hostile != hNoTests && g.tests == 0 {
-		gofiles[0].decls = append(gofiles[0].decls, g.okTest(gofiles[0].f))
+	if hostile != hNoTests {
+		// at least one test function in a file the go tool does not ignore (names beginning with _ or . are
+		// not part of the package): a package without any test function is the separate class hNoTests
+		var vis *goFile
+		visible := 0
+		for _, gf := range gofiles {
+			if strings.HasPrefix(gf.f.Name, "_") || strings.HasPrefix(gf.f.Name, ".") {
+				continue
+			}
+			if vis == nil {
+				vis = gf
+			}
+			for _, dcl := range gf.decls {
+				if strings.HasPrefix(dcl, "func test") || strings.HasPrefix(dcl, "func failing_test") || strings.Contains(dcl, "\nfunc test") || strings.Contains(dcl, "\nfunc failing_test") {
+					visible++
+				}
+			}
+		}
+		if vis == nil {
+			vis = &goFile{f: &c18File{Name: "visible.go"}}
+			gofiles = append(gofiles, vis)
+		}
+		if visible == 0 {
+			vis.decls = append(vis.decls, g.okTest(vis.f))
+		}
 	}
 	if rng.Intn(6) == 0 {
 		// a bare `test` / `failing_test`: outside "named test…" as read here; behaviour is only noted
